@@ -1,6 +1,7 @@
 (* C18 - import renaming is prefix-exact and keeps local names bound.
    Only statements, `exact`, and Print Assumptions here; proofs are in Rename/*Proofs.v. *)
 From Coq Require Import NArith List Bool String.
+From Verif Require Import Scope.PySyntax Scope.PySem Rename.Program Rename.ProgramProofs.
 From Verif Require Import Base.Chars Base.StrX Rename.Replace Rename.WordSub
                           Rename.ReplaceProofs Rename.WordSubProofs Rename.WordSubDottedProofs Rename.MapProofs.
 Import ListNotations.
@@ -127,6 +128,42 @@ Theorem C18_replace_preserves_object : forall (obj : Type) (resolve : list str -
   forall i, resolve (parts (fullname (replace old new i))) = resolve (parts (fullname i)).
 Proof. exact replace_preserves_object. Qed.
 Print Assumptions C18_replace_preserves_object.
+
+(* ---- program level, on C02/C05's reference semantics (Scope/PySem.v), MODULE-LEVEL FRAGMENT ----
+   rename_program: top-level imports rewritten with Import.replace on id lists and re-expressed at the same line,
+   Name / attribute chains whose dotted prefix is OLD renamed.  in_domain old new bi ns p (decidable) is
+   old_reached_only_through_matching_toplevel_imports for programs made of import / from-import / expression /
+   single-name assignment statements over Name, attribute and operator expressions (no def, class, lambda,
+   comprehension, compound statement):  every binding of the root of OLD is an import whose path and local name are
+   OLD or under OLD; the root of OLD is read only as OLD or under OLD; the root of NEW (if different) is neither
+   bound nor read; every import is expressible before and after.
+   The full clause (nested scopes, compound statements) is NOT proved; it is decided by the execution oracle. *)
+Theorem C18_behaviour_preserved_flat : forall old new bi ns p, in_domain old new bi ns p = true ->
+  pysem bi ns (rename_program old new p) = map (rename_rd old new) (pysem bi ns p).
+Proof. exact behaviour_preserved_flat. Qed.
+Print Assumptions C18_behaviour_preserved_flat.
+
+(* outside the domain (DESIGN domain note): `import pkg; pkg.sub.f` with pkg.sub -> zz.qq reads the unbound zz *)
+Theorem C18_behaviour_preserved_refuted :
+  exists old new p, pysem [] [] (rename_program old new p) <> map (rename_rd old new) (pysem [] [] p) /\
+                    pysem [] [] p = [(2, 10%N, Bound (BImp 1 ([10%N], [10%N])))] /\
+                    pysem [] [] (rename_program old new p) = [(2, 40%N, Unbound)].
+Proof. exact behaviour_preserved_refuted. Qed.
+Print Assumptions C18_behaviour_preserved_refuted.
+
+(* known finding C18-a: `import pkg.sub; pkg.k` with pkg.sub -> zz.qq: the renamed import stops binding pkg *)
+Theorem C18_root_unbound_refuted :
+  exists old new p, in_domain old new [] [] p = false /\
+    pysem [] [] p = [(2, 10%N, Bound (BImp 1 ([10%N; 20%N], [10%N; 20%N])))] /\
+    pysem [] [] (rename_program old new p) = [(2, 10%N, Unbound)].
+Proof. exact root_unbound_refuted. Qed.
+Print Assumptions C18_root_unbound_refuted.
+
+Example C18_behaviour_preserved_nonvacuous :
+  in_domain [10%N; 20%N] [40%N; 50%N] [] [] example_program = true /\
+  pysem [] [] (rename_program [10%N; 20%N] [40%N; 50%N] example_program) =
+    [(3, 40%N, Bound (BImp 1 ([40%N; 50%N], [40%N; 50%N]))); (3, 31%N, Bound (BImp 2 ([40%N; 50%N; 30%N], [31%N])))].
+Proof. exact behaviour_preserved_nonvacuous. Qed.
 
 (* non-vacuity: concrete instances exercising the rewriting branches *)
 Example C18_nonvacuous_replace :
